@@ -5,6 +5,7 @@
     correspondence on pairs of limits checks. *)
 From BB Require Import Base Ref TapeModel InstrsModel MachineModel ReasonModel SegmentModel CpsModel.
 From BB Require Import Loops MonoMachine ReasonFacts SegmentFacts CpsSound.
+From BB Require Import ProverModel ProverSound.
 
 Theorem C15_for_upto_mono : forall (St Rs : Type) (body : St -> St + Rs) n m s r,
   for_upto n body s = inr r -> n <= m -> for_upto m body s = inr r.
@@ -42,6 +43,54 @@ Theorem C15_cps_mono : forall order prog goal r r',
   cps_run order prog r goal = Ok true -> r <= r' -> cps_run order prog r' goal = Ok true.
 Proof. intros order prog goal r r'. apply cps_run_mono. Qed.
 Print Assumptions C15_cps_mono.
+
+(** the same loop under ANY two limits: two answers are the same answer *)
+Theorem C15_for_upto_agree : forall (St Rs : Type) (body : St -> St + Rs) n m s r r',
+  for_upto n body s = inr r -> for_upto m body s = inr r' -> r = r'.
+Proof.
+  intros St Rs body n m s r r' Hn Hm.
+  destruct (N.le_ge_cases n m) as [Hle|Hle].
+  - rewrite (for_upto_mono body n m s r Hn Hle) in Hm. injection Hm as <-. reflexivity.
+  - rewrite (for_upto_mono body m n s r' Hm Hle) in Hn. injection Hn as <-. reflexivity.
+Qed.
+Print Assumptions C15_for_upto_agree.
+
+(** the rule-accelerated run (machine.rs run_prover, loop over cycle in 0..sim_lim) *)
+Theorem C15_prover_mono : forall comp n m r,
+  run_prover comp n = Ok r -> r_result r <> xlimit -> n <= m -> run_prover comp m = Ok r.
+Proof. exact prover_mono. Qed.
+Print Assumptions C15_prover_mono.
+
+(** symmetric forms: whichever of the two limits is larger, two settled answers coincide *)
+Theorem C15_quick_agree : forall comp n m,
+  r_result (run_quick comp n) <> xlimit -> r_result (run_quick comp m) <> xlimit ->
+  run_quick comp m = run_quick comp n.
+Proof.
+  intros comp n m Hn Hm. destruct (N.le_ge_cases n m) as [Hle|Hle].
+  - apply C15_quick_mono; assumption.
+  - symmetry. apply C15_quick_mono; assumption.
+Qed.
+Print Assumptions C15_quick_agree.
+
+Theorem C15_rec_agree : forall comp n m,
+  quick_term_or_rec comp n <> RLimit -> quick_term_or_rec comp m <> RLimit ->
+  quick_term_or_rec comp m = quick_term_or_rec comp n.
+Proof.
+  intros comp n m Hn Hm. destruct (N.le_ge_cases n m) as [Hle|Hle].
+  - apply C15_rec_mono; assumption.
+  - symmetry. apply C15_rec_mono; assumption.
+Qed.
+Print Assumptions C15_rec_agree.
+
+Theorem C15_bw_halt_agree : forall sw comp d d',
+  cant_halt_sw sw comp d <> Ok BwStepLimit -> cant_halt_sw sw comp d' <> Ok BwStepLimit ->
+  cant_halt_sw sw comp d' = cant_halt_sw sw comp d.
+Proof.
+  intros sw comp d d' Hd Hd'. destruct (N.le_ge_cases d d') as [Hle|Hle].
+  - apply (C15_bw_mono sw comp d d' Hle); assumption.
+  - symmetry. apply (C15_bw_mono sw comp d' d Hle); assumption.
+Qed.
+Print Assumptions C15_bw_halt_agree.
 
 Example C15_nonvacuous :
   cant_halt f1_halt_prog 9 = Ok BwStepLimit /\ cant_halt f1_halt_prog 10 = Ok (BwRefuted 9) /\
